@@ -145,13 +145,6 @@ def _c12(v):
     return d, msg, d.get('mech') or {}, tuple(d.get('version_tuple') or (0, 0))
 
 
-@classifier('c12_yield_in_lambda_outside_function')
-def _c12_yield_lambda(v):
-    d, msg, mech, ver = _c12(v)
-    return v['kind'].split(':')[0] in ('a_issue', 'b_issue') and msg == "'yield' outside function" \
-        and mech.get('innermost_scope') == 'lambdef'
-
-
 @classifier('c12_nonlocal_dunder_class')
 def _c12_nonlocal_class(v):
     d, msg, mech, ver = _c12(v)
@@ -273,10 +266,6 @@ C20_STACK_SITES = [
     ('AttributeError', '_visit_part', 'if node.type == IndentationTypes.BACKSLASH'),
     ('AttributeError', '_visit_part', 'if len(indentation) > len(n.indentation):'),
 ]
-C20_RECOVERED_SHAPE_SITES = [
-    ('AttributeError', '_is_magic_name', "return name.value.startswith('__') and name.value.endswith('__')"),
-    ('IndexError', '_analyse_non_prefix', 'right = comparison.children[index + 1]'),
-]
 
 
 @classifier('c20_tab_config_none_indentation')
@@ -291,12 +280,6 @@ def _c20_stack(v):
     """F-C20-2: the indentation-node stack is popped once too often (trailing comma in a set/dict display, backslash at
     the start of a file, implicit-indentation nodes around recovered code); the next access finds None or a wrong node type"""
     return v['kind'] == 'normalizer_raised' and _site_match(v, C20_STACK_SITES)
-
-
-@classifier('c20_recovered_tree_shapes')
-def _c20_shapes(v):
-    """F-C20-3: helper code assumes the shape of a valid tree (expr_stmt targets, comparison operands) on a recovered tree"""
-    return v['kind'] == 'normalizer_raised' and _site_match(v, C20_RECOVERED_SHAPE_SITES)
 
 
 @classifier('c12_name_used_in_lambda_then_global')
